@@ -311,3 +311,46 @@ shutil.rmtree(top)
 sys.exit(1 if bad else 0)
 '''
 READ_REPLAYS = {k: (lambda kw: REPLAY_READ % (kw,)) for k in ('_read_lengths', '_read_slices', '_split_invariance', '_two_files', '_first_last', '_cache_sequence')}
+
+
+
+# real-build replay for the cross-directory merge harnesses (_combine3, _combine2_arrays, C11 merge): every block is recorded in its own
+# top-level directory, the directories are handed to the reader in the counterexample's order, and one read must return the blocks merged
+# exactly when adjacent, in ascending order
+REPLAY_MERGE = '''
+from vlib import build
+import numpy as np, tempfile, os, shutil, sys, itertools, warnings
+warnings.simplefilter('ignore')
+drf = build.load_pkg()
+kw = %r
+a = kw.get('a', 0)
+if 'l3' in kw:
+    starts = [a, a + kw['l1'] + kw['g1'], a + kw['l1'] + kw['g1'] + kw['l2'] + kw['g2']]; lens = [kw['l1'], kw['l2'], kw['l3']]
+    order = list(list(itertools.permutations(range(3)))[kw.get('perm', 0) %% 6])
+else:
+    starts = [a, a + kw['l1'] + kw['g1']]; lens = [kw['l1'], kw['l2']]
+    order = [1, 0] if kw.get('swap') else [0, 1]
+S = 10**10
+top = tempfile.mkdtemp(); dirs = []
+for k, bi in enumerate(order):
+    d = os.path.join(top, 'top%%d' %% k); os.makedirs(d + '/ch'); dirs.append(d)
+    w = drf.DigitalRFWriter(d + '/ch', 'i4', 3600, 1000, S, 100, 1, 'u', is_complex=False, is_continuous=False, marching_periods=False)
+    w.rf_write(np.arange(starts[bi], starts[bi] + lens[bi], dtype='i4'), next_sample=starts[bi]); w.close()
+want = []
+for s0, ln in sorted(zip(starts, lens)):
+    if want and want[-1][0] + want[-1][1] == s0: want[-1][1] += ln
+    else: want.append([s0, ln])
+r = drf.DigitalRFReader(dirs)
+bad = 0
+try:
+    data = r.read(S + starts[0] - 5, S + max(starts) + max(lens) + 5, 'ch')
+    got = [[int(k) - S, len(v)] for k, v in data.items()]
+    vals_ok = all(np.array_equal(np.asarray(v).ravel(), np.arange(int(k) - S, int(k) - S + len(v))) for k, v in data.items())
+    lens_ = [[int(k) - S, int(v)] for k, v in r.get_continuous_blocks(S + starts[0] - 5, S + max(starts) + max(lens) + 5, 'ch').items()]
+    if got != want or not vals_ok or lens_ != want: print('read ->', got, 'blocks ->', lens_, 'expected', want, 'values ok' if vals_ok else 'VALUES WRONG'); bad = 1
+except Exception as e:
+    print('read raised', type(e).__name__, e); bad = 1
+shutil.rmtree(top)
+sys.exit(1 if bad else 0)
+'''
+READ_REPLAYS['_combine3'] = READ_REPLAYS['_combine2_arrays'] = lambda kw: REPLAY_MERGE % (kw,)
